@@ -1,6 +1,6 @@
 (* Case runner and spec checker (T3) for C17. *)
 From WI Require Import Lib.Base Lib.Info Lib.Strings Lib.Time Model.Dispatch Model.Uuid.
-From WI Require Spec.C17.
+From WI Require Spec.C17 Model.Base64 Model.Render.
 Open Scope N_scope.
 
 (* ---------- oracles for the other rows of the format table (as in Run/C07.v) ---------- *)
@@ -25,6 +25,34 @@ Definition parse_of (oracle : list arg) (n data : bytes) : result info :=
 
 Definition dz (z : Z) : arg := AB (dec_of_Z z).
 
+(* ---- ops that use the implementation the way its callers do (buffers, repeated calls, files one
+   after the other).  fn: 0 IsUUID, 1 UUIDValue, 2 IsUUID then UUIDValue on the same buffer (what
+   file.Inspect does with the UUID row). *)
+Definition val_obs (text : bytes) : arg := obs_result arg_of_info (uuid_value_gen current text).
+Definition call_C17 (fn : N) (text : bytes) : arg :=
+  match fn with
+  | 0 => AL [AZ 0; ok_arg (is_uuid_gen current text)]
+  | 1 => val_obs text
+  | _ => AL [AZ 0; AL [ok_arg (is_uuid_gen current text); val_obs text]]
+  end.
+Definition step_of (s : arg) : nat * bytes := (arg_nat (arg_nth 0 s), arg_bytes (arg_nth 1 s)).
+
+(* one file of a sequence: (name text oracle) *)
+Definition inspect_entry (e : arg) : result info :=
+  let oracle := arg_list (arg_nth 2 e) in
+  inspect (sniff_of oracle) (parse_of oracle) (arg_bytes (arg_nth 0 e)) (arg_bytes (arg_nth 1 e)).
+
+(* a long text travels as (unit count) runs around a core: unit^count, built without deep recursion *)
+Definition rep_onto (unit : bytes) (n : N) (acc : bytes) : bytes := N.iter n (fun a => unit ++ a) acc.
+Definition long_text (lead : bytes) (nl : N) (core trail : bytes) (nt : N) : bytes :=
+  rep_onto lead nl (core ++ rep_onto trail nt []).
+Definition sniff_of_fast (oracle : list arg) (n data : bytes) : bool :=
+  if bytes_eqb n (bs "IsUUID") then is_uuid_fast current data
+  else arg_bool (arg_nth 0 (lookup_by r_sniffer n table oracle (AL []))).
+Definition parse_of_fast (oracle : list arg) (n data : bytes) : result info :=
+  if bytes_eqb n (bs "UUIDValue") then uuid_value_fast current data
+  else result_of_obs (arg_nth 1 (lookup_by r_parser n table oracle (AL []))).
+
 Definition run_C17 (op : bytes) (input : arg) : arg :=
   if bytes_eqb op (bs "describe") then
     let name := arg_bytes (arg_nth 0 input) in
@@ -33,6 +61,56 @@ Definition run_C17 (op : bytes) (input : arg) : arg :=
     AL [ok_arg (is_uuid_gen current data);
         obs_result arg_of_info (uuid_value_gen current data);
         obs_result arg_of_info (inspect (sniff_of oracle) (parse_of oracle) name data)]
+  else if bytes_eqb op (bs "twice") then
+    (* (fn mode pre post text) -> (r1 buf r2 buf rfresh r1late) *)
+    let fn := arg_N (arg_nth 0 input) in
+    let pre := arg_bytes (arg_nth 2 input) in
+    let post := arg_bytes (arg_nth 3 input) in
+    let text := arg_bytes (arg_nth 4 input) in
+    let backing := pre ++ text ++ post in
+    let r := call_C17 fn (Model.Base64.window (length pre) (length text) backing) in
+    AL [r; AB backing; r; AB backing; r; r]
+  else if bytes_eqb op (bs "reuse") then
+    (* (fn mode backing0 ((off text)...)) -> ((r buf rfresh rlate)...) *)
+    let fn := arg_N (arg_nth 0 input) in
+    AL (map (fun wb => let r := call_C17 fn (fst wb) in AL [r; AB (snd wb); r; r])
+            (Model.Base64.reuse_windows (arg_bytes (arg_nth 2 input)) (map step_of (arg_list (arg_nth 3 input)))))
+  else if bytes_eqb op (bs "conc") then
+    (* (fn shape ((textA textB)...)) -> ((rA rB stable bufB)...) *)
+    let fn := arg_N (arg_nth 0 input) in
+    AL (map (fun p => AL [call_C17 fn (arg_bytes (arg_nth 0 p)); call_C17 fn (arg_bytes (arg_nth 1 p)); AZ 1;
+                          AB (arg_bytes (arg_nth 1 p))])
+            (arg_list (arg_nth 2 input)))
+  else if bytes_eqb op (bs "scan") then
+    (* (fn bufsize (line...)) -> ((token r rfresh rlate)...): bufio.Scanner over line LF line LF ... *)
+    let fn := arg_N (arg_nth 0 input) in
+    AL (map (fun l => let r := call_C17 fn (arg_bytes l) in AL [l; r; r; r]) (arg_list (arg_nth 2 input)))
+  else if bytes_eqb op (bs "files") then
+    (* (mode ((name text oracle)...)) -> (inspect...) *)
+    AL (map (fun e => obs_result arg_of_info (inspect_entry e)) (arg_list (arg_nth 1 input)))
+  else if bytes_eqb op (bs "cli") then
+    (* ((name text oracle)...) -> (exit-status stdout) *)
+    let es := arg_list (arg_nth 0 input) in
+    if existsb (fun e => negb (is_ok (inspect_entry e))) es then AL [AZ 2; AB []]
+    else AL [AZ 0; AB (flat_map (fun e => match inspect_entry e with
+                                           | Ok i => Model.Render.report (arg_bytes (arg_nth 0 e)) i
+                                           | _ => [] end) es)]
+  else if bytes_eqb op (bs "stdin") then
+    (* (mode text oracle) -> (exit-status stdout): the program reading its standard input *)
+    let oracle := arg_list (arg_nth 2 input) in
+    match inspect (sniff_of oracle) (parse_of oracle) (bs "/dev/stdin") (arg_bytes (arg_nth 1 input)) with
+    | Ok i => AL [AZ 0; AB (Model.Render.print_info i 0)]
+    | _ => AL [AZ 2; AB []]
+    end
+  else if bytes_eqb op (bs "long") then
+    (* (name lead nlead core trail ntrail oracle) -> (IsUUID UUIDValue Inspect) *)
+    let name := arg_bytes (arg_nth 0 input) in
+    let data := long_text (arg_bytes (arg_nth 1 input)) (arg_N (arg_nth 2 input)) (arg_bytes (arg_nth 3 input))
+                          (arg_bytes (arg_nth 4 input)) (arg_N (arg_nth 5 input)) in
+    let oracle := arg_list (arg_nth 6 input) in
+    AL [ok_arg (is_uuid_fast current data);
+        obs_result arg_of_info (uuid_value_fast current data);
+        obs_result arg_of_info (inspect (sniff_of_fast oracle) (parse_of_fast oracle) name data)]
   else if bytes_eqb op (bs "lib") then
     let u := arg_bytes (arg_nth 0 input) in
     let t := lib_time u in
@@ -141,6 +219,13 @@ Definition attr_is_node (attrs : list (bytes * bytes)) (v : N) : bool :=
   | Some s => match read_hex 12 0 s with Some (x, []) => x =? v | _ => false end
   | None => false
   end.
+Definition attr_absent_or_node (attrs : list (bytes * bytes)) (v : N) : bool :=
+  match lookup_attr (bs "Node id") attrs with
+  | Some s => match read_hex 12 0 s with Some (x, []) => x =? v | _ => false end
+  | None => true
+  end.
+Definition no_attr (attrs : list (bytes * bytes)) (name : bytes) : bool :=
+  match lookup_attr name attrs with Some _ => false | None => true end.
 Fixpoint skip_nondigits (s : bytes) : bytes :=
   match s with
   | c :: r => if is_digit c then s else skip_nondigits r
@@ -175,6 +260,8 @@ Definition check_info (n : N) (i : info) : arg :=
   let attrs := i_attrs i in
   let v := spec_version n in
   let named := (1 <=? v) && (v <=? 8) in
+  let timed := (v =? 1) || (v =? 2) || (v =? 6) || (v =? 7) in
+  let noded := (v =? 1) || (v =? 2) || (v =? 6) in
   let time_checks :=
     match spec_unix100 n with
     | Some d => [ck (shown_time_ok attrs d) "Time (UTC) differs from the timestamp encoded in the UUID (RFC 9562 5.1/5.6/5.7)"]
@@ -195,27 +282,264 @@ Definition check_info (n : N) (i : info) : arg :=
      ck (negb (v =? 1) || attr_is_decimal attrs (bs "Clock sequence") (spec_clock_seq n)) "Clock sequence differs from the 14-bit field";
      ck (negb (v =? 2) || domain_ok attrs (spec_dce_domain n)) "DCE domain differs from octet 9";
      ck (negb (v =? 2) || attr_is_decimal attrs (bs "Id") (spec_dce_id n)) "DCE identifier differs from time_low";
-     ck (negb (v =? 2) || attr_is_node attrs (spec_node n)) "Node id differs from the node field (v2)"]).
+     ck (negb (v =? 2) || attr_is_node attrs (spec_node n)) "Node id differs from the node field (v2)";
+     (* 5.6: a version 6 UUID has the node and clock sequence of 5.1; if they are shown they are those *)
+     ck (negb (v =? 6) || attr_absent_or_node attrs (spec_node n)) "Node id differs from the node field (v6)";
+     ck (negb (v =? 6) || attr_absent_or_decimal attrs (bs "Clock sequence") (spec_clock_seq n)) "Clock sequence differs from the 14-bit field (v6)";
+     (* versions 3, 4, 5, 8, the Nil and Max UUIDs and unknown versions encode no timestamp, node or
+        clock sequence (version 7: no node, no clock sequence): nothing of the kind can be displayed
+        that "equals the encoded field" *)
+     ck (timed || no_attr attrs (bs "Time (UTC)")) "a time is displayed for a UUID that encodes no timestamp";
+     ck (timed || no_attr attrs (bs "Time (raw)")) "a raw timestamp is displayed for a UUID that encodes none";
+     ck (noded || no_attr attrs (bs "Node id")) "a node id is displayed for a UUID that encodes none";
+     ck (noded || no_attr attrs (bs "Clock sequence")) "a clock sequence is displayed for a UUID that encodes none";
+     ck ((v =? 2) || (no_attr attrs (bs "Domain") && no_attr attrs (bs "Id"))) "a DCE domain / identifier is displayed for a UUID that is not version 2"]).
+
+(* ---- the property for one look at one text (judged from the text alone; no model here) ---- *)
+Definition bad (v : arg) : bool := match v with AL [] => false | _ => true end.
+Fixpoint first_bad (l : list arg) : arg :=
+  match l with [] => AL [] | v :: r => if bad v then v else first_bad r end.
+Definition vmsg (pre : string) (v : arg) : arg :=
+  match v with AB m => AB (bytes_of_string pre ++ m) | _ => v end.
+Arguments vmsg pre%string v.
+Definition malformed : arg := AS "malformed observation".
+
+(* IsUUID's observation (0 b) | (2) *)
+Definition judge_is (want : option N) (r : arg) : arg :=
+  match r with
+  | AL [AZ 2%Z] => AS "IsUUID panicked"
+  | AL [AZ 0%Z; AZ v] =>
+      match want, negb (Z.eqb v 0) with
+      | Some _, false => AS "a single UUID in canonical, braced, URN or bare-hex form is not recognised"
+      | None, true => AS "text that is not exactly one UUID is accepted as a UUID (IsUUID)"
+      | _, _ => AL []
+      end
+  | _ => malformed
+  end.
+(* UUIDValue's observation (0 info) | (1) | (2) *)
+Definition judge_val (want : option N) (r : arg) : arg :=
+  match r with
+  | AL [AZ 2%Z] => AS "UUIDValue panicked"
+  | AL [AZ 1%Z] => match want with Some _ => AS "a single UUID is not described (UUIDValue fails)" | None => AL [] end
+  | AL [AZ 0%Z; ia] =>
+      match want with
+      | None => AS "text that is not exactly one UUID is described as a UUID (UUIDValue)"
+      | Some n => check_info n (info_of_arg ia)
+      end
+  | _ => malformed
+  end.
+(* file.Inspect's observation on a file with that text *)
+Definition judge_inspect (want : option N) (r : arg) : arg :=
+  match want with
+  | None =>
+      match r with
+      | AL [AZ 0%Z; ia] =>
+          if prefix_of (bs "UUID") (i_desc (info_of_arg ia))
+          then AS "text that is not exactly one UUID is reported as a UUID" else AL []
+      | AL [AZ 2%Z] => AS "inspection panicked"
+      | _ => AL []
+      end
+  | Some n =>
+      match r with
+      | AL [AZ 0%Z; ia] => check_info n (info_of_arg ia)
+      | _ => AS "inspection of a single UUID failed"
+      end
+  end.
+Definition judge_call (fn : N) (text : bytes) (r : arg) : arg :=
+  let want := spec_uuid_of_text text in
+  match fn with
+  | 0 => judge_is want r
+  | 1 => judge_val want r
+  | _ => match r with
+         | AL [AZ 2%Z] => AS "IsUUID / UUIDValue panicked"
+         | AL [AZ 0%Z; AL [b; v]] => first_bad [judge_is want (AL [AZ 0; b]); judge_val want v]
+         | _ => malformed
+         end
+  end.
+Definition same_buf (what : string) (want : bytes) (got : arg) : arg :=
+  match got with
+  | AB b => if bytes_eqb b want then AL [] else AB (bytes_of_string what)
+  | _ => malformed
+  end.
+Definition same_res (what : string) (a b : arg) : arg :=
+  if arg_eqb a b then AL [] else AB (bytes_of_string what).
+Arguments same_buf what%string want got.
+Arguments same_res what%string a b.
+(* a bare boolean observation b | (2) *)
+Definition judge_is_bare (want : option N) (b : arg) : arg :=
+  match b with AZ _ => judge_is want (AL [AZ 0; b]) | _ => judge_is want b end.
+
+(* reuse: the checker follows the buffer itself (expected contents), step by step *)
+Fixpoint judge_reuse (fn : N) (b : bytes) (steps obs : list arg) : arg :=
+  match steps, obs with
+  | [], [] => AL []
+  | s :: steps', AL [r; buf; rf; rl] :: obs' =>
+      let off := arg_nat (arg_nth 0 s) in
+      let t := arg_bytes (arg_nth 1 s) in
+      let b' := firstn off b ++ t ++ skipn (off + length t) b in
+      first_bad [
+        same_buf "the call changed bytes of the caller's buffer (inside or outside the text)" b' buf;
+        vmsg "buffer refilled in place: " (judge_call fn t r);
+        judge_call fn t rf;
+        same_res "same text, different answers in the refilled buffer and in a fresh copy" r rf;
+        same_res "the report returned by this call was changed by a later call" r rl;
+        judge_reuse fn b' steps' obs']
+  | _, _ => malformed
+  end.
+
+Definition judge_conc (fn : N) (p o : arg) : arg :=
+  match o with
+  | AL [ra; rb; st; buf] =>
+      first_bad [
+        vmsg "concurrent callers: " (judge_call fn (arg_bytes (arg_nth 0 p)) ra);
+        vmsg "concurrent callers: " (judge_call fn (arg_bytes (arg_nth 1 p)) rb);
+        same_res "concurrent callers: the answer for one text changed between iterations" st (AZ 1);
+        same_buf "concurrent callers: the call changed the caller's buffer" (arg_bytes (arg_nth 1 p)) buf]
+  | _ => malformed
+  end.
+
+Definition judge_scan (fn : N) (line o : arg) : arg :=
+  match o with
+  | AL [tok; r; rf; rl] =>
+      first_bad [
+        same_res "the report returned for this line was changed by a later call" r rl;
+        same_buf "malformed case: the scanner did not deliver the line" (arg_bytes line) tok;
+        vmsg "line of a list read with bufio.Scanner: " (judge_call fn (arg_bytes line) r);
+        judge_call fn (arg_bytes line) rf;
+        same_res "same text, different answers in the scanner's buffer and in a fresh copy" r rf]
+  | _ => malformed
+  end.
+
+Fixpoint judge_all {A} (f : A -> arg -> arg) (xs : list A) (os : list arg) : arg :=
+  match xs, os with
+  | [], [] => AL []
+  | x :: xs', o :: os' => let v := f x o in if bad v then v else judge_all f xs' os'
+  | _, _ => malformed
+  end.
+
+(* ---- the CLI's standard output read back: "name: description" then "  attribute: value" lines ---- *)
+Fixpoint split_lines (cur : bytes) (s : bytes) : list bytes :=   (* cur: the current line, reversed *)
+  match s with
+  | [] => match cur with [] => [] | _ => [rev cur] end
+  | c :: r => if c =? 10 then rev cur :: split_lines [] r else split_lines (c :: cur) r
+  end.
+Fixpoint cut_at_colon_space (acc : bytes) (s : bytes) : option (bytes * bytes) :=
+  match s with
+  | 58 :: 32 :: r => Some (rev acc, r)
+  | c :: r => cut_at_colon_space (c :: acc) r
+  | [] => None
+  end.
+(* the indented lines that follow a header line, and the rest *)
+Fixpoint indented (ls : list bytes) : list bytes * list bytes :=
+  match ls with
+  | (32 :: l) :: r => let (a, b) := indented r in ((32 :: l) :: a, b)
+  | _ => ([], ls)
+  end.
+Definition attr_of_line (l : bytes) : bytes * bytes :=
+  match l with
+  | 32 :: 32 :: r => match cut_at_colon_space [] r with Some nv => nv | None => (r, []) end
+  | _ => (l, [])
+  end.
+Definition obs_of_record (name header : bytes) (body : list bytes) : option arg :=
+  if prefix_of (name ++ [58; 32]) header
+  then Some (AL [AZ 0; arg_of_info (Info (drop (length name + 2) header) (map attr_of_line body) [])])
+  else None.
+Fixpoint judge_cli (fuel : nat) (es : list arg) (ls : list bytes) : arg :=
+  match fuel with
+  | O => malformed
+  | S f =>
+    match es, ls with
+    | [], [] => AL []
+    | e :: es', h :: rest =>
+        let (body, rest') := indented rest in
+        match obs_of_record (arg_bytes (arg_nth 0 e)) h body with
+        | None => AS "several files in one run: the report of a file is missing or out of place"
+        | Some o =>
+            let v := vmsg "several files in one run: " (judge_inspect (spec_uuid_of_text (arg_bytes (arg_nth 1 e))) o) in
+            if bad v then v else judge_cli f es' rest'
+        end
+    | _, _ => AS "several files in one run: the number of reports differs from the number of files"
+    end
+  end.
+
+(* ---- very long texts: the same reading of the text without deep recursion ----
+   white space is stripped with the list itself as fuel and rev_append; a trimmed text of more
+   than 45 bytes is no UUID (the longest form, urn:uuid: + 8-4-4-4-12, has 45). *)
+Fixpoint strip_ws_long (fuel : bytes) (encs : list bytes) (s : bytes) : bytes :=
+  match fuel with
+  | [] => s
+  | _ :: f => match first_prefix encs s with
+              | Some k => strip_ws_long f encs (drop k s)
+              | None => s
+              end
+  end.
+Definition spec_uuid_of_long_text (s : bytes) : option N :=
+  let l := strip_ws_long s ws_encodings s in
+  let rl := rev_append l [] in
+  let t := rev_append (strip_ws_long rl (map (@rev N) ws_encodings) rl) [] in
+  if Nat.ltb 45 (length (firstn 46 t)) then None else spec_read_uuid t.
 
 Definition check_C17 (op : bytes) (input impl : arg) : arg :=
   if bytes_eqb op (bs "describe") then
     let data := arg_bytes (arg_nth 1 input) in
-    let isu := arg_bool (arg_nth 0 impl) in
-    match spec_uuid_of_text data with
-    | None =>
-        if isu then AS "text that is not exactly one UUID is accepted as a UUID (IsUUID)"
-        else match arg_nth 2 impl with
-             | AL [AZ 0%Z; ia] =>
-                 if prefix_of (bs "UUID") (i_desc (info_of_arg ia))
-                 then AS "text that is not exactly one UUID is reported as a UUID" else AL []
-             | AL [AZ 2%Z] => AS "inspection panicked"
-             | _ => AL []
-             end
-    | Some n =>
-        if negb isu then AS "a single UUID in canonical, braced, URN or bare-hex form is not recognised"
-        else match arg_nth 2 impl with
-             | AL [AZ 0%Z; ia] => check_info n (info_of_arg ia)
-             | _ => AS "inspection of a single UUID failed"
-             end
+    let want := spec_uuid_of_text data in
+    first_bad [judge_is_bare want (arg_nth 0 impl); judge_val want (arg_nth 1 impl); judge_inspect want (arg_nth 2 impl)]
+  else if bytes_eqb op (bs "twice") then
+    let fn := arg_N (arg_nth 0 input) in
+    let text := arg_bytes (arg_nth 4 input) in
+    let backing := arg_bytes (arg_nth 2 input) ++ text ++ arg_bytes (arg_nth 3 input) in
+    match impl with
+    | AL [r1; b1; r2; b2; rf; rl] =>
+        first_bad [
+          same_res "the report returned by the first call was changed by a later call" r1 rl;
+          judge_call fn text r1;
+          same_buf "the call changed the caller's buffer (text or spare bytes around it)" backing b1;
+          vmsg "second call on the same buffer: " (judge_call fn text r2);
+          same_res "second call on the same buffer: the answer differs from the first" r1 r2;
+          same_buf "the second call changed the caller's buffer" backing b2;
+          judge_call fn text rf;
+          same_res "same text, different answers in two buffers" r1 rf]
+    | _ => malformed
     end
+  else if bytes_eqb op (bs "reuse") then
+    judge_reuse (arg_N (arg_nth 0 input)) (arg_bytes (arg_nth 2 input)) (arg_list (arg_nth 3 input)) (arg_list impl)
+  else if bytes_eqb op (bs "conc") then
+    judge_all (judge_conc (arg_N (arg_nth 0 input))) (arg_list (arg_nth 2 input)) (arg_list impl)
+  else if bytes_eqb op (bs "scan") then
+    judge_all (judge_scan (arg_N (arg_nth 0 input))) (arg_list (arg_nth 2 input)) (arg_list impl)
+  else if bytes_eqb op (bs "files") then
+    judge_all (fun e o => vmsg "files inspected one after the other: "
+                               (judge_inspect (spec_uuid_of_text (arg_bytes (arg_nth 1 e))) o))
+              (arg_list (arg_nth 1 input)) (arg_list impl)
+  else if bytes_eqb op (bs "cli") then
+    match impl with
+    | AL [AZ 0%Z; AB out] =>
+        let ls := split_lines [] out in
+        judge_cli (S (length ls)) (arg_list (arg_nth 0 input)) ls
+    | AL [AZ _; AB _] => AS "several files in one run: the program failed"
+    | _ => malformed
+    end
+  else if bytes_eqb op (bs "stdin") then
+    match impl with
+    | AL [AZ 0%Z; AB out] =>
+        match split_lines [] out with
+        | h :: rest =>
+            let (body, rest') := indented rest in
+            match rest' with
+            | [] => vmsg "text on standard input: "
+                      (judge_inspect (spec_uuid_of_text (arg_bytes (arg_nth 1 input)))
+                                     (AL [AZ 0; arg_of_info (Info h (map attr_of_line body) [])]))
+            | _ => AS "text on standard input: more than one report"
+            end
+        | [] => AS "text on standard input: no report"
+        end
+    | AL [AZ _; AB _] => AS "text on standard input: the program failed"
+    | _ => malformed
+    end
+  else if bytes_eqb op (bs "long") then
+    let data := long_text (arg_bytes (arg_nth 1 input)) (arg_N (arg_nth 2 input)) (arg_bytes (arg_nth 3 input))
+                          (arg_bytes (arg_nth 4 input)) (arg_N (arg_nth 5 input)) in
+    let want := spec_uuid_of_long_text data in
+    first_bad [judge_is_bare want (arg_nth 0 impl); judge_val want (arg_nth 1 impl);
+               judge_inspect want (arg_nth 2 impl)]
   else AL [].
